@@ -414,7 +414,10 @@ func (ex *Exec) callBuiltin(st *State, in ssa.CallInstruction, b *ssa.Builtin, a
 		x := av(0)
 		switch t := types.Unalias(args[0].Type()).Underlying().(type) {
 		case *types.Basic:
-			return app(SInt, "str_len", x)
+			n := app(SInt, "str_len", x)
+			// a string that exists at run time is shorter than 2^62 bytes (a fact about this value)
+			st.assume(le(n, intLit(4611686018427387904)))
+			return n
 		case *types.Slice:
 			return sLen(x)
 		case *types.Map:
